@@ -24,6 +24,7 @@ Anything else yields a message starting with 'ERROR' and the helper is emitted w
 stops compiling and the dynamic part of the check still runs.
 """
 import ast
+import hashlib
 import math
 import os
 import sys
@@ -295,7 +296,32 @@ def translate():
             'From VT Require Import Base.PyVal Forward.Forward.\n\n' % ', '.join(files))
     text += '\n'.join(defs) + '\n\n'
     text += 'Definition all_pairs : list (helper * method) :=\n  [ %s ].\n' % '\n  ; '.join(pairs)
+    # the digest of the text is part of an identifier, so that a compiled Gen_forward.vo can be
+    # matched against the text it was compiled from (see vo_is_fresh)
+    text += 'Definition %s : unit := tt.\n' % digest_ident(text)
     return text, msgs, desc
+
+
+def digest_ident(text):
+    return 'gen_digest_' + hashlib.sha1(text.encode()).hexdigest()[:16]
+
+
+def vo_is_fresh(text=None):
+    """True when coq/Forward/Gen_forward.vo is absent or was compiled from the current text of
+    Gen_forward.v.  (Another process regenerating from a different VERIF_REPO while coqc runs can
+    leave a .vo that is newer than the .v but compiled from other text; make cannot see that.)"""
+    path = os.path.join(common.COQ, OUT)
+    vo = path + 'o'
+    if not os.path.exists(vo):
+        return True
+    if text is None:
+        text = open(path).read()
+    lines = [ln for ln in text.split('\n') if ln.startswith('Definition gen_digest_')]
+    if not lines:
+        return False
+    ident = lines[-1].split()[1]
+    with open(vo, 'rb') as f:
+        return ident.encode() in f.read()
 
 
 def regenerate():
@@ -314,6 +340,9 @@ def regenerate():
         state = 'rewritten'
     else:
         state = 'unchanged'
+    if not vo_is_fresh(text):
+        os.utime(path, None)        # force make to recompile the stale .vo
+        state += ', stale Gen_forward.vo found: recompilation forced'
     msgs.append('fwd2coq: %d helpers + %d method signatures from %s -> %s (%s)' % (
         len(desc), len(desc), src_dir(), OUT, state))
     return msgs
